@@ -99,7 +99,7 @@ refresh_short!(c12_refresh_df4, 4);
 // @harness name=c12_refresh_df5 props=C12 tier=thorough cap=600
 // any DF5 frame
 refresh_short!(c12_refresh_df5, 5);
-// @harness name=c12_refresh_df11 props=C12,C19 tier=quick cap=600
+// @harness name=c12_refresh_df11 props=C12,C19:thorough tier=quick cap=600
 // any DF11 frame
 refresh_short!(c12_refresh_df11, 11);
 // @harness name=c12_refresh_df16 props=C12 tier=thorough cap=900
@@ -108,7 +108,7 @@ refresh_long!(c12_refresh_df16, 16, 99);
 // @harness name=c12_refresh_df17_tc4 props=C12 tier=thorough cap=900
 // any DF17 identification squitter
 refresh_long!(c12_refresh_df17_tc4, 17, 4);
-// @harness name=c12_refresh_df17_tc11 props=C12,C19 tier=quick cap=900
+// @harness name=c12_refresh_df17_tc11 props=C12,C19:thorough tier=quick cap=900
 // any DF17 airborne position squitter (TC11)
 refresh_long!(c12_refresh_df17_tc11, 17, 11);
 // @harness name=c12_refresh_df17_tc19 props=C12 tier=thorough cap=900
